@@ -13,13 +13,17 @@ import time
 import traceback
 
 HERE = os.path.dirname(os.path.abspath(__file__))
-VERIF = os.path.dirname(HERE)
+VERIF = os.environ.get("PF_VERIF") or os.path.dirname(HERE)
 sys.path.insert(0, HERE)
-LEAN_DIR = os.path.join(VERIF, "lean")
+LEAN_DIR = os.environ.get("PF_LEAN_DIR") or os.path.join(VERIF, "lean")
 ALLOWED_AXIOMS = {"propext", "Classical.choice", "Quot.sound"}
 FORBIDDEN = re.compile(r"\bsorry\b|\badmit\b|^axiom |native_decide|bv_decide|implemented_by|unsafe |maxHeartbeats 0")
 
-LEVELS = json.load(open(os.path.join(HERE, "levels.json")))
+
+
+def load_level(prop):
+    p = os.path.join(HERE, "levels", prop + ".json")
+    return json.load(open(p)) if os.path.exists(p) else {"level": "proof"}
 
 
 def sh(cmd, cwd=None, timeout=3600):
@@ -152,6 +156,7 @@ def main():
         sys.exit(2)
 
     # 2. build driver (must succeed) and the property's theorems
+    rc, out = sh([sys.executable, os.path.join(HERE, "genops.py")])
     rc, out = sh(["lake", "build", "pfdriver"], cwd=LEAN_DIR)
     if rc != 0:
         print("BROKEN: model driver does not build\n" + out[-3000:])
@@ -230,7 +235,7 @@ def main():
         exit_code = 1
 
     # 5. evidence
-    lv = LEVELS.get(prop, {"level": "proof"})
+    lv = load_level(prop)
     cov = {
         "obligations": obligations,
         "discharged": discharged,
